@@ -90,11 +90,8 @@ func typeText(key string) string {
 }
 
 func rawCheckExpr(e string) string {
-	t := strings.TrimSpace(e)
-	if strings.HasPrefix(t, "(") && strings.HasSuffix(t, ")") {
-		return e
-	}
-	return "(" + t + ")"
+	// unlike check() of migrate.go: wrap unless the text is one parenthesised expression
+	return mayWrap(strings.TrimSpace(e))
 }
 
 func autoincCol(t Table, c string) bool {
